@@ -154,12 +154,12 @@ func extraKeyClasses() [][]kvp {
 		{{cUint(9000), cArray(cArray(cArray(cArray(cUint(1)))))}},
 		{{cUint(9001), cMap(kvp{cUint(1), cArray(cMap(kvp{cUint(2), cUint(3)}))})}},
 		{{cUint(9002), cTag(42, cText("tagged unknown"))}},
-		{{cBytes([]byte{1}), cUint(1)}},  // byte-string key
-		{{cArray(), cUint(1)}},           // array key
-		{{cTrue, cUint(1)}},              // boolean key
-		{{cFloat64(1.5), cUint(1)}},      // float key
-		{{cText("\xff"), cUint(1)}},      // invalid UTF-8 text key
-		{{cNint(1 << 63), cUint(1)}},     // negative key below int64
+		{{cBytes([]byte{1}), cUint(1)}}, // byte-string key
+		{{cArray(), cUint(1)}},          // array key
+		{{cTrue, cUint(1)}},             // boolean key
+		{{cFloat64(1.5), cUint(1)}},     // float key
+		{{cText("\xff"), cUint(1)}},     // invalid UTF-8 text key
+		{{cNint(1 << 63), cUint(1)}},    // negative key below int64
 		{{cUint(9000), cUint(1)}, {cUint(9001), cUint(2)}, {cUint(9002), cUint(3)}, {cUint(9003), cUint(4)}, {cUint(9004), cUint(5)}, {cUint(9005), cUint(6)}, {cUint(9006), cUint(7)}, {cUint(9007), cUint(8)}},
 	}
 }
